@@ -148,3 +148,24 @@ more('C11', 'effect rule on module-level containers', 'C11.j the JSON / equality
 more('C16', 'effect rule on module-level containers', 'C16.i converters keep no state between calls')
 more('C17', 'effect rule on module-level containers', 'C17.f vendor converters keep no state between calls')
 more('C20', 'must-pass-through on the cancellation arm, zero-preserving defaults', 'C20.a(+) the cancel RPC is sent on every path of the cancellation arm that has a request in flight; C20.g budgets are not defaulted with `x or <non-zero>`')
+
+more('C01', 'dependence rule on the merged product state', 'C01.g every merged product state is built from the zero-qubit factor that carries the global phase')
+more('C02', 'required guard on unchecked factoring', 'C02.j sub-states are split without validation only after computational-basis measurement / reset')
+more('C04', 'interpretation of GlobalPhaseGate.controlled on model control lists', 'C04.e the control turned into the Z target is the tested last one; the others are handed on in order')
+more('C06', 'must-pass-through on rebuild loops, lost-update ordering rule, tracker invalidation on every callback path',
+     'C06.j operation conservation with tabled, re-checked drop exits; C06.k accumulators shared with nested helpers are read out after the last write; C06.l eject_z tracker invalidated on every path')
+more('C08', 'interpretation of PhasedXZGate._canonical, decorator-coherence rule on value_equality, dimension-awareness rule',
+     'C08.l canonical form keeps the matrix up to phase; C08.m mutable value-equality classes own their (uncached) getters; C08.n qudit-capable gates test their dimension before handing out qubit gates; C08.f ParallelGate bound')
+more('C09', 'call-site rule on part-circuit iterations, per-qubit bookkeeping, rescaling of integer initial states, exactly-once ordering of noise and deferral, order-independent reductions',
+     'C09.c (reworked) the noise hook sees the qubits of the whole program; C09.f measured qubits tracked per qubit; C09.g integer initial state rescaled for ancillas; C09.h noise once, before deferral; C09.i order-independent reductions in noise models')
+more('C11', 'who-may-use rule on byte-level identity, interpretation of the MeasurementKey string round trip',
+     'C11.k tobytes()/id() in hash/eq only at tabled pinned-dtype sites; C11.l parse_serialized(str(key)) rebuilds name and path (depth 0-4)')
+more('C12', 'interpretation of _with_rescoped_keys_ over all subsets of scopes and of with_qubit_mapping over pairs of model maps',
+     'C12.l control keys bind to the innermost enclosing measurement; C12.m qubit maps compose')
+more('C14', 'coherence rule on aggregations over all terms', 'C14.l sums over the terms of a linear combination filter on the coefficient only')
+more('C16', 'schema-typed writer/reader rules',
+     'C16.j numeric fields not written under a truthiness test; C16.k reader guards admit the helper range; C16.l dedupe keys cover moment tags (1 known finding); C16.m tags in written order; C16.n unset string maps to the None default')
+more('C17', 'pairing rule on sampled outcomes', 'C17.g outcomes and weights stay paired up to choice(p=...)')
+more('C18', 'flattening-order table', 'C18.h result storage flattens and rebuilds in index order only')
+more('C19', 'interpretation of PhasedXZGate._qasm_, of ClassicallyControlledOperation._qasm_ and of SympyCondition._qasm_ on model values',
+     'C19.f PhasedXZ export == Z^z Z^a X^x Z^-a up to phase; C19.g every statement of a conditioned operation carries the condition; C19.h condition constants in register bit order, measured qubit i in bit i')
